@@ -609,7 +609,7 @@ theorem keeps_reRegister (s : St) (t : TowerId) : Keeps s.client (reRegister s t
         · have := keeps_recordRegistration (s.towerRegisters t) t
           rw [towerRegisters_client] at this
           exact this
-        · exact Keeps.refl _
+        · simp only [towerRegisters_client]; exact Keeps.refl _
   · exact Keeps.refl _
 
 theorem consume_client (s : St) (t : TowerId) : (s.consume t).client = s.client := by
@@ -738,8 +738,10 @@ theorem keeps_registerCore (s : St) (t : TowerId) : Keeps s.client (s.registerCo
     · exact Keeps.refl _
     · simp only [towerRegisters_client]; exact Keeps.refl _
     · split
-      · exact keeps_recordRegistration _ t
-      · exact Keeps.refl _
+      · have := keeps_recordRegistration (s.towerRegisters t) t
+        rw [towerRegisters_client] at this
+        exact this
+      · simp only [towerRegisters_client]; exact Keeps.refl _
 
 theorem keeps_registerCmd (s : St) (t : TowerId) : Keeps s.client (s.register t).1.client := by
   unfold St.register
